@@ -24,7 +24,7 @@ class HistCase:
 
     def __call__(self, seed, ops=None, hook=None):
         prof = self.prof(seed) if callable(self.prof) else self.prof
-        r = histrun.run_history(seed, prof, tag=self.prop.lower(), hook=hook or self.hook, ops=ops)
+        r = histrun.run_history(seed, prof, tag=self.prop.lower(), hook=hook or self.hook, ops=ops, verif_log=bool(self.hook))
         mine = [a for a in r['anoms'] if a['cls'] in self.classes and (self.keyfilter is None or self.keyfilter(a))]
         other = [a for a in r['anoms'] if a not in mine]
         shape = common.shash([r['shape'], op_shape(r['hist'])])
